@@ -21,8 +21,8 @@ type monC20 struct {
 	step int
 }
 
-func newMonC20() *monC20      { return &monC20{} }
-func (m *monC20) Name() string { return "C20" }
+func newMonC20() *monC20           { return &monC20{} }
+func (m *monC20) Name() string     { return "C20" }
 func (m *monC20) Finish(r *Runner) {}
 
 func unbKey(val, denom string, amt sdkmath.Int, t int64) string {
